@@ -1,0 +1,122 @@
+//go:build verif
+
+// Contracts for cloneDocument and what it is built from (property C17), read by /verif/engine (govc).
+// Comments only: with or without the build tag this file adds no code to the package.
+package document
+
+// New: a document made only of objects and containers allocated by the call.
+//@ func New
+//@ props C17
+//@ modifies nothing
+//@ ensures fresh(result) && result.Body != nil && fresh(result.Body) && len(result.Body.Elements) == 0 && freshArr(result.Body.Elements)
+//@ ensures result.parts != nil && fresh(result.parts) && result.styleManager != nil && fresh(result.styleManager)
+//@ ensures result.documentRelationships != nil && fresh(result.documentRelationships) && freshArr(result.documentRelationships.Relationships)
+//@ ensures result.contentTypes != nil && fresh(result.contentTypes) && freshArr(result.contentTypes.Defaults) && freshArr(result.contentTypes.Overrides)
+//@ ensures result.relationships != nil && fresh(result.relationships) && freshArr(result.relationships.Relationships)
+//@ ensures result.numberingManager == nil && result.footnoteManager == nil
+//@ ensures forall k string :: has(result.parts, k) ==> freshArr(result.parts[k])
+
+// The numbering / footnote registries of the clone are fresh managers with fresh maps holding the same
+// entries. The registered definition objects themselves (*AbstractNum, *NumInstance, *Footnote, *Endnote)
+// are shared with the source on purpose (they are not modified after creation - see the comments in
+// numbering.go / footnotes.go); that they are never written later is NOT part of these contracts.
+//@ func (*NumberingManager).clone
+//@ props C17
+//@ modifies nothing
+//@ ensures m == nil ==> result == nil
+//@ ensures m != nil ==> fresh(result) && result.abstractNums != nil && fresh(result.abstractNums) && result.numInstances != nil && fresh(result.numInstances)
+//@ ensures m != nil ==> result.nextAbstractNumID == m.nextAbstractNumID && result.nextNumID == m.nextNumID
+//@ ensures m != nil ==> forall k string :: (has(result.abstractNums, k) <==> has(m.abstractNums, k)) && (has(m.abstractNums, k) ==> result.abstractNums[k] == m.abstractNums[k])
+//@ ensures m != nil ==> forall k string :: (has(result.numInstances, k) <==> has(m.numInstances, k)) && (has(m.numInstances, k) ==> result.numInstances[k] == m.numInstances[k])
+//@ loop 1
+//@   invariant unchangedHeap() && c != nil && fresh(c) && c.abstractNums != nil && fresh(c.abstractNums) && c.numInstances != nil && fresh(c.numInstances) && c.abstractNums != c.numInstances
+//@   invariant c.nextAbstractNumID == m.nextAbstractNumID && c.nextNumID == m.nextNumID
+//@   invariant forall k string :: (has(c.abstractNums, k) <==> seen(k)) && (seen(k) ==> has(m.abstractNums, k) && c.abstractNums[k] == m.abstractNums[k])
+//@   invariant forall k string :: !has(c.numInstances, k)
+//@ loop 2
+//@   invariant unchangedHeap() && c != nil && fresh(c) && c.abstractNums != nil && fresh(c.abstractNums) && c.numInstances != nil && fresh(c.numInstances) && c.abstractNums != c.numInstances
+//@   invariant c.nextAbstractNumID == m.nextAbstractNumID && c.nextNumID == m.nextNumID
+//@   invariant forall k string :: (has(c.abstractNums, k) <==> has(m.abstractNums, k)) && (has(m.abstractNums, k) ==> c.abstractNums[k] == m.abstractNums[k])
+//@   invariant forall k string :: (has(c.numInstances, k) <==> seen(k)) && (seen(k) ==> has(m.numInstances, k) && c.numInstances[k] == m.numInstances[k])
+
+//@ func (*FootnoteManager).clone
+//@ props C17
+//@ modifies nothing
+//@ ensures m == nil ==> result == nil
+//@ ensures m != nil ==> fresh(result) && result.footnotes != nil && fresh(result.footnotes) && result.endnotes != nil && fresh(result.endnotes)
+//@ ensures m != nil ==> result.nextFootnoteID == m.nextFootnoteID && result.nextEndnoteID == m.nextEndnoteID
+//@ ensures m != nil ==> forall k string :: (has(result.footnotes, k) <==> has(m.footnotes, k)) && (has(m.footnotes, k) ==> result.footnotes[k] == m.footnotes[k])
+//@ ensures m != nil ==> forall k string :: (has(result.endnotes, k) <==> has(m.endnotes, k)) && (has(m.endnotes, k) ==> result.endnotes[k] == m.endnotes[k])
+//@ loop 1
+//@   invariant unchangedHeap() && c != nil && fresh(c) && c.footnotes != nil && fresh(c.footnotes) && c.endnotes != nil && fresh(c.endnotes)
+//@   invariant c.nextFootnoteID == m.nextFootnoteID && c.nextEndnoteID == m.nextEndnoteID
+//@   invariant forall k string :: (has(c.footnotes, k) <==> seen(k)) && (seen(k) ==> has(m.footnotes, k) && c.footnotes[k] == m.footnotes[k])
+//@   invariant forall k string :: !has(c.endnotes, k)
+//@ loop 2
+//@   invariant unchangedHeap() && c != nil && fresh(c) && c.footnotes != nil && fresh(c.footnotes) && c.endnotes != nil && fresh(c.endnotes)
+//@   invariant c.nextFootnoteID == m.nextFootnoteID && c.nextEndnoteID == m.nextEndnoteID
+//@   invariant forall k string :: (has(c.footnotes, k) <==> has(m.footnotes, k)) && (has(m.footnotes, k) ==> c.footnotes[k] == m.footnotes[k])
+//@   invariant forall k string :: (has(c.endnotes, k) <==> seen(k)) && (seen(k) ==> has(m.endnotes, k) && c.endnotes[k] == m.endnotes[k])
+
+// cloneAllDocumentParts copies every part but word/document.xml into the destination's part map: each copied
+// entry is a fresh byte array of the same length; the source map and its byte arrays are only read; entries of
+// the destination that are not overwritten stay.
+//@ func (*TemplateEngine).cloneAllDocumentParts
+//@ props C17
+//@ ghost B int
+//@ requires source != nil && dest != nil && dest.parts != nil && above(dest.parts, B) && source.parts != dest.parts
+//@ modifies map:string:[]byte, cell:byte
+//@ ensures unchangedBelow(B)
+//@ ensures forall k string :: has(dest.parts, k) <==> (old(has(dest.parts, k)) || (has(source.parts, k) && k != "word/document.xml"))
+//@ ensures forall k string :: has(source.parts, k) && k != "word/document.xml" ==> len(dest.parts[k]) == len(source.parts[k]) && arr(dest.parts[k]) >= old(allocBound())
+//@ ensures forall k string :: has(dest.parts, k) && !(has(source.parts, k) && k != "word/document.xml") ==> dest.parts[k] == old(dest.parts[k])
+//@ loop 1
+//@   invariant unchangedBelow(B) && source.parts != nil
+//@   invariant forall k string :: has(source.parts, k) == old(has(source.parts, k)) && source.parts[k] == old(source.parts[k])
+//@   invariant forall k string :: has(dest.parts, k) <==> (old(has(dest.parts, k)) || (seen(k) && k != "word/document.xml"))
+//@   invariant forall k string :: seen(k) ==> has(source.parts, k)
+//@   invariant forall k string :: seen(k) && k != "word/document.xml" ==> len(dest.parts[k]) == len(source.parts[k]) && arr(dest.parts[k]) >= old(allocBound())
+//@   invariant forall k string :: has(dest.parts, k) && !(seen(k) && k != "word/document.xml") ==> dest.parts[k] == old(dest.parts[k])
+
+// Body-element kinds the clone knows.
+//@ spec isTable(x any) bool = typeIs(x, "*Table")
+//@ spec isKnownKind(x any) bool = isPara(x) || isTable(x) || isSect(x)
+//@ spec sameKind(x any, y any) bool = (isPara(x) <==> isPara(y)) && (isTable(x) <==> isTable(y)) && (isSect(x) <==> isSect(y))
+// sectRefsOK: section-properties elements hold no nil header/footer references (refsNonNil, clone contracts).
+//@ spec sectRefsOK(es []any) bool = forall j int :: {es[j]} 0 <= j && j < len(es) && isSect(es[j]) ==> refsNonNil(es[j].(*SectionProperties))
+
+// cloneDocument: the result is a new document; nothing that existed before the call is written (source,
+// its body, its parts, its registries); every container of the result (body element list, part map and the
+// byte array of every part, relationship and content-type lists, style/numbering/footnote registries) is a
+// fresh one; the body has the same length and the element at every index is a deep copy of the source's
+// element at that index for the three kinds the clone knows (paragraph, table, section properties).
+// post-other-kinds: an element of any OTHER kind (bookmarks, TOC/SDT blocks, formula paragraphs, ...) must be a
+// new object too. The code appends the source's pointer instead ("其他类型暂时直接复制引用"): the rendered
+// document shares such elements with the template's base document. Recorded as a known finding (C17).
+//@ func (*TemplateEngine).cloneDocument
+//@ props C17
+//@ ghost B int = allocBound()
+//@ requires te != nil && source != nil && source.Body != nil && elemsOK(source.Body.Elements) && sectRefsOK(source.Body.Elements)
+//@ modifies nothing
+//@ ensures fresh(result) && result.Body != nil && fresh(result.Body) && freshArr(result.Body.Elements)
+//@ ensures result.parts != nil && fresh(result.parts) && (forall k string :: has(result.parts, k) ==> freshArr(result.parts[k]))
+//@ ensures result.documentRelationships != nil && fresh(result.documentRelationships) && freshArr(result.documentRelationships.Relationships)
+//@ ensures result.contentTypes != nil && fresh(result.contentTypes) && freshArr(result.contentTypes.Defaults) && freshArr(result.contentTypes.Overrides)
+//@ ensures result.relationships != nil && fresh(result.relationships) && freshArr(result.relationships.Relationships)
+//@ ensures result.styleManager != nil && fresh(result.styleManager) && (result.numberingManager == nil || fresh(result.numberingManager)) && (result.footnoteManager == nil || fresh(result.footnoteManager))
+//@ ensures result.nextImageID == source.nextImageID
+//@ ensures len(result.Body.Elements) == len(source.Body.Elements)
+//@ ensures forall j int :: 0 <= j && j < len(source.Body.Elements) && old(isKnownKind(source.Body.Elements[j])) ==> sameKind(result.Body.Elements[j], old(source.Body.Elements[j])) && fresh(result.Body.Elements[j])
+//@ ensures forall j int :: 0 <= j && j < len(source.Body.Elements) && !old(isKnownKind(source.Body.Elements[j])) ==> fresh(result.Body.Elements[j])
+//@ loop 1
+//@   invariant 0 <= #i && #i <= len(source.Body.Elements) && unchangedHeap()
+//@   invariant forall j int :: {source.Body.Elements[j]} 0 <= j && j < len(source.Body.Elements) ==> source.Body.Elements[j] == old(source.Body.Elements[j])
+//@   invariant doc != nil && fresh(doc) && doc.Body != nil && fresh(doc.Body) && freshArr(doc.Body.Elements) && len(doc.Body.Elements) == #i
+//@   invariant doc.parts != nil && fresh(doc.parts) && (forall k string :: has(doc.parts, k) ==> freshArr(doc.parts[k]))
+//@   invariant doc.documentRelationships != nil && fresh(doc.documentRelationships) && freshArr(doc.documentRelationships.Relationships)
+//@   invariant doc.contentTypes != nil && fresh(doc.contentTypes) && freshArr(doc.contentTypes.Defaults) && freshArr(doc.contentTypes.Overrides)
+//@   invariant doc.relationships != nil && fresh(doc.relationships) && freshArr(doc.relationships.Relationships)
+//@   invariant doc.styleManager != nil && fresh(doc.styleManager) && doc.numberingManager == nil && doc.footnoteManager == nil
+//@   invariant forall j int :: 0 <= j && j < #i && old(isKnownKind(source.Body.Elements[j])) ==> sameKind(doc.Body.Elements[j], old(source.Body.Elements[j])) && fresh(doc.Body.Elements[j])
+//@   invariant forall j int :: 0 <= j && j < #i && !old(isKnownKind(source.Body.Elements[j])) ==> fresh(doc.Body.Elements[j])
+//@   decreases len(source.Body.Elements) - #i
